@@ -462,7 +462,8 @@ func c17Check(rc *RunCtx, c *c17cfg, x *Call) {
 				return
 			}
 			simrt.Probe("c17.tcp_answer_returned")
-		} else if x.EndAt >= x.Deadline {
+		} else if x.EndAt >= x.Deadline && x.Deadline-x.StartAt < 2*time.Second {
+			// (a budget of 2 s or more covers the slowest UDP + TCP legs of this scenario: running into such a deadline is a hang)
 			simrt.Probe("c17.caller_gave_up") // its context ended: any error will do
 		} else {
 			// the failure must be TCP's: either the query reached the TCP server and
@@ -492,7 +493,7 @@ func c17Check(rc *RunCtx, c *c17cfg, x *Call) {
 		return
 	}
 	simrt.Probe("c17.plain_reply")
-	if x.Err != nil && x.EndAt >= x.Deadline {
+	if x.Err != nil && x.EndAt >= x.Deadline && x.Deadline-x.StartAt < 2*time.Second {
 		simrt.Probe("c17.caller_gave_up")
 		return
 	}
